@@ -94,6 +94,9 @@ def execute(case, prop, ctx):
     fs = SimFS(root, clock=clock, order='sorted')
     fs.install()
     cfg = case['backend']
+    # source-text archives: every rewrite in its own simulated second (one dump(k1, k2) rewrites the file twice);
+    # the same-second stale-.pyc read is C03/C04's known finding, not the sync algebra
+    fs.autotick = cfg['label'] in ('file-src', 'dir-src')
     null = cfg['label'] == 'null'
     probes, faults = {}, {}
     obs = []
